@@ -193,7 +193,7 @@ fn thorough_workloads(rng: &mut crate::rng::Rng) -> Vec<Workload> {
 
 #[derive(Clone, Debug)]
 struct CallRec {
-    /// model token without phases (`n`, `a7`, `c`, `r`, `d`, `m`, `g`, `l`) or `-` for calls the
+    /// model token without phases (`n`, `a7`, `c`, `r`, `d`, `w`, `m`, `g`, `l`, `x`) or `-` for calls the
     /// model does not have (delete_term)
     tok: String,
     what: String,
@@ -230,6 +230,9 @@ struct Child {
     writer_errored: bool,
     /// a rollback of the current writer returned Err (it lost its lock guard)
     rollback_failed: bool,
+    /// an `end_merge` of the current writer swapped the registers and then failed to save meta.json:
+    /// `Index::searchable_segment_ids` (read from meta.json) names segments the writer no longer has
+    registers_ahead: bool,
     calls: Vec<CallRec>,
     violations: Vec<Value>,
     counts: BTreeMap<String, u64>,
@@ -298,6 +301,19 @@ impl Child {
         let r = &w[i];
         r.kind == OpKind::SyncDir && r.thread == "segment_updater"
             && w[..i].iter().rev().find(|x| x.thread == "segment_updater").map(|x| x.kind == OpKind::AtomicWrite && x.path == "meta.json" && x.ok).unwrap_or(false)
+    }
+
+    /// did the merge that started at log index `from` fail in `end_merge`'s `save_metas` (the updater's
+    /// directory sync / atomic write of meta.json), i.e. after `segment_manager.end_merge` swapped
+    /// the registers?
+    fn end_merge_save_failed(&self, from: usize) -> bool {
+        let log = self.vdir.log();
+        let w = &log[from.min(log.len())..];
+        let Some(i) = w.iter().position(|r| r.faulted) else { return false };
+        let r = &w[i];
+        r.thread == "segment_updater"
+            && (r.kind == OpKind::SyncDir || r.path == "meta.json")
+            && !w[..i].iter().any(|x| x.thread == "segment_updater" && x.kind == OpKind::AtomicWrite && x.path == "meta.json" && x.ok)
     }
 
     /// a lock file left behind by a failed flush / delete blocks every later acquisition; the
@@ -369,6 +385,7 @@ impl Child {
                 }
                 self.writer = Some(w);
                 self.rollback_failed = false;
+                self.registers_ahead = false;
                 self.pending.clear();
                 self.acked_since_err.clear();
                 self.writer_errored = false;
@@ -411,6 +428,7 @@ impl Child {
             match r {
                 Ok(Ok(_)) => {
                     self.record("r".into(), "rollback(recovery)", "ok".into(), from);
+                    self.registers_ahead = false;
                     self.pending.clear();
                     self.acked_since_err.clear();
                     self.writer_errored = false;
@@ -521,6 +539,7 @@ impl Child {
                 match r {
                     Ok(Ok(_)) => {
                         self.record("c".into(), "commit", "ok".into(), from);
+                        self.registers_ahead = false;
                         // (1) complete: the storage now holds exactly the expected documents
                         self.clean_stale_locks("after commit");
                         match content_of_storage(self.ram.clone(), self.idf) {
@@ -597,6 +616,7 @@ impl Child {
                 match r {
                     Ok(Ok(_)) => {
                         self.record("r".into(), "rollback", "ok".into(), from);
+                        self.registers_ahead = false;
                         self.pending.clear();
                         self.acked_since_err.clear();
                         self.writer_errored = false;
@@ -629,6 +649,12 @@ impl Child {
                 if self.writer.is_none() {
                     return;
                 }
+                if self.registers_ahead {
+                    // the only public source of segment ids is stale; a merge of those ids is refused
+                    // with InvalidArgument by design — the harness has nothing valid to ask for
+                    self.count("merge:skipped-registers-ahead-of-meta");
+                    return;
+                }
                 let from0 = self.vdir.log_len();
                 let ids = match catch_unwind(AssertUnwindSafe(|| self.index.searchable_segment_ids())) {
                     Ok(Ok(ids)) => {
@@ -648,8 +674,16 @@ impl Child {
                 let w = self.writer.as_mut().unwrap();
                 let r = catch_unwind(AssertUnwindSafe(|| w.merge(&ids).wait()));
                 match r {
-                    Ok(Ok(_)) => self.record("m".into(), "merge", "ok".into(), from),
-                    Ok(Err(e)) => self.record("m".into(), "merge", short_err(&e), from), // confined to the merge
+                    Ok(Ok(_)) => {
+                        self.record("m".into(), "merge", "ok".into(), from);
+                        self.registers_ahead = false;
+                    }
+                    Ok(Err(e)) => {
+                        self.record("m".into(), "merge", short_err(&e), from); // confined to the merge
+                        if self.end_merge_save_failed(from) {
+                            self.registers_ahead = true;
+                        }
+                    }
                     Err(_) => {
                         self.record("m".into(), "merge", "panic".into(), from);
                         self.violation("oracle", "C11:panic-in-merge", "merge(..).wait() panicked".into());
@@ -731,10 +765,10 @@ impl Child {
                 let r = catch_unwind(AssertUnwindSafe(move || w.wait_merging_threads()));
                 self.pending.clear();
                 match r {
-                    Ok(Ok(())) => self.record("d".into(), "wait_merging_threads", "ok".into(), from),
-                    Ok(Err(e)) => self.record("d".into(), "wait_merging_threads", short_err(&e), from),
+                    Ok(Ok(())) => self.record("w".into(), "wait_merging_threads", "ok".into(), from),
+                    Ok(Err(e)) => self.record("w".into(), "wait_merging_threads", short_err(&e), from),
                     Err(_) => {
-                        self.record("d".into(), "wait_merging_threads", "panic".into(), from);
+                        self.record("w".into(), "wait_merging_threads", "panic".into(), from);
                         self.violation("oracle", "C11:panic-in-wait", "wait_merging_threads panicked".into());
                     }
                 }
@@ -752,6 +786,13 @@ impl Child {
             }
         }
         let starts: Vec<usize> = self.calls.iter().map(|c| c.from).collect();
+        // log index at which each file was created (first open_write)
+        let mut created_at: BTreeMap<&str, usize> = BTreeMap::new();
+        for (i, r) in log.iter().enumerate() {
+            if r.kind == OpKind::OpenWrite {
+                created_at.entry(r.path.as_str()).or_insert(i);
+            }
+        }
         for (i, r) in log.iter().enumerate() {
             if !r.faulted {
                 continue;
@@ -785,7 +826,17 @@ impl Child {
             } else if th.starts_with("merge_thread") || (th == "docstore-compressor-thread" && created_by.starts_with("merge_thread")) {
                 if c0 == 'm' { ("mt", false) } else { ("bg", true) }
             } else if th.starts_with("thrd-tantivy-index") || th == "docstore-compressor-thread" {
-                ("wk", false)
+                // A segment file that was created under an earlier writer generation (before the last
+                // rollback / drop) belongs to discarded work: its worker was detached from the
+                // pipeline, and the doc-store compressor thread of a dropped SegmentWriter finishes
+                // its file on its own, possibly during a later call. Nobody can (or needs to) report
+                // a failure there.
+                let creation_gen = created_at.get(r.path.as_str()).and_then(|ix| starts.iter().rposition(|s| *s <= *ix)).map(|cj| self.calls[cj].writer_gen);
+                if creation_gen.is_some() && creation_gen != Some(self.calls[ci].writer_gen) {
+                    ("bg", true)
+                } else {
+                    ("wk", false)
+                }
             } else if th == "segment_updater" {
                 match c0 {
                     'c' => {
@@ -854,6 +905,10 @@ impl Child {
             if has("xx") && c.tok != "-" {
                 self.violation("model", "C11:unclassified-fault", format!("a faulted operation during `{}` could not be attributed to a phase", c.what));
             }
+            if has("wk") && c0 != 'c' {
+                // the worker runs on while the script is in another call (add, delete, merge, gc, reload)
+                worker_failed_gen = Some(c.writer_gen);
+            }
             match c0 {
                 'n' if ok && (has("lo") || has("lf") || has("cr")) => self.violation("oracle", "C11:error-swallowed-in-new-writer", format!("Index::writer returned Ok although {:?} failed", c.tags)),
                 'c' => {
@@ -866,18 +921,14 @@ impl Child {
                     }
                     worker_failed_gen = None;
                 }
-                'a' | '-' => {
-                    if has("wk") {
-                        worker_failed_gen = Some(c.writer_gen);
-                    }
-                }
+                'a' | '-' => {}
                 'r' => {
                     if ok && has("cr") {
                         self.violation("oracle", "C11:error-swallowed-in-rollback", "rollback returned Ok although reading the index failed".into());
                     }
                     if ok { worker_failed_gen = None; }
                 }
-                'd' => {
+                'd' | 'w' => {
                     worker_failed_gen = None;
                 }
                 'm' if ok && (has("mt") || has("ep") || has("es") || has("e2")) => self.violation("oracle", "C11:error-swallowed-in-merge", format!("merge returned Ok although {:?} failed", c.tags)),
@@ -889,27 +940,29 @@ impl Child {
     }
 
     fn compare_with_model(&mut self, ctx: &mut Ctx) {
-        if !self.wl.model_applies() || self.calls.iter().any(|c| c.background) {
+        // with the segment-cut hook a worker hands over several segments per transaction; when one of
+        // them fails and the writer is used on without rollback (policy B) the earlier segments of the
+        // failed transaction are published by the next commit — the one-segment model cannot follow
+        if !self.wl.model_applies() || (self.wl.cut > 0 && self.policy_b) || self.calls.iter().any(|c| c.background) {
             self.count("model:skipped");
             return;
         }
-        // a worker that fails while the script is in a call the model does not have (delete_term)
-        // is the next modelled call's worker failure
-        let mut carried: BTreeSet<&'static str> = BTreeSet::new();
+        // A worker that fails while the script is in a call that has no worker phase in the model
+        // (delete_term, merge, gc, reload, the harness' own reads) is, for the model, the failure of
+        // the worker that indexes the documents of the preceding add_document of that writer; if
+        // there is none, of the next add / commit.
         for i in 0..self.calls.len() {
-            if self.calls[i].tok == "-" {
-                if self.calls[i].tags.contains("wk") {
-                    carried.insert("wk");
-                }
-            } else if !carried.is_empty() {
-                let c0 = self.calls[i].tok.chars().next().unwrap_or('-');
-                if c0 == 'a' || c0 == 'c' {
-                    let add: Vec<&'static str> = carried.iter().cloned().collect();
-                    for t in add {
-                        self.calls[i].tags.insert(t);
-                    }
-                }
-                carried.clear();
+            let c0 = self.calls[i].tok.chars().next().unwrap_or('-');
+            if matches!(c0, 'a' | 'c') || !self.calls[i].tags.contains("wk") {
+                continue;
+            }
+            let gen = self.calls[i].writer_gen;
+            let back = (0..i).rev().take_while(|j| self.calls[*j].writer_gen == gen && !matches!(self.calls[*j].tok.chars().next(), Some('c') | Some('r') | Some('n')))
+                .find(|j| self.calls[*j].tok.starts_with('a'));
+            let target = back.or_else(|| (i + 1..self.calls.len()).take_while(|j| self.calls[*j].writer_gen == gen).find(|j| matches!(self.calls[*j].tok.chars().next(), Some('a') | Some('c'))));
+            self.calls[i].tags.remove("wk");
+            if let Some(t) = target {
+                self.calls[t].tags.insert("wk");
             }
         }
         let toks: Vec<String> = self.calls.iter().filter(|c| c.tok != "-").map(|c| {
@@ -924,6 +977,7 @@ impl Child {
             return;
         }
         let mut mismatch: Option<String> = None;
+        let mut mismatch_call = String::new();
         let mut worker_fault_open = false;
         for (i, c) in real.iter().enumerate() {
             let m = model_res.get(i).cloned().unwrap_or("?");
@@ -932,9 +986,10 @@ impl Child {
             if c.tags.contains("wk") && c0 == 'a' {
                 worker_fault_open = true;
             }
-            if c0 == 'c' || c0 == 'r' || c0 == 'd' || c0 == 'n' {
+            if c0 == 'c' || c0 == 'r' || c0 == 'd' || c0 == 'w' || c0 == 'n' {
                 if m != r && mismatch.is_none() {
                     mismatch = Some(format!("call {i} `{}` ({:?}): implementation {r}, model {m}", c.what, c.tags));
+                    mismatch_call = c.what.split('(').next().unwrap_or("call").to_string();
                 }
                 worker_fault_open = false;
                 continue;
@@ -947,12 +1002,13 @@ impl Child {
                 }
                 if mismatch.is_none() {
                     mismatch = Some(format!("call {i} `{}` ({:?}): implementation {r}, model {m}", c.what, c.tags));
+                    mismatch_call = c.what.split('(').next().unwrap_or("call").to_string();
                 }
             }
         }
         self.count("model:compared");
         if let Some(m) = mismatch {
-            self.violation("model", "C11:call-results-differ-from-model", format!("{m}; script {}; model {}", toks.join(","), resp));
+            self.violation("model", &format!("C11:call-results-differ-from-model:{mismatch_call}"), format!("{m}; script {}; model {}", toks.join(","), resp));
         }
     }
 }
@@ -973,7 +1029,7 @@ fn child_main(ctx: &mut Ctx, case: &Value) {
     let mut ch = Child {
         wl: wl.clone(), policy_b, vdir: vdir.clone(), ram, index, idf, body, writer: None, writer_gen: 0, reader: None,
         searcher_content: None, next_doc: 0, last_ok: BTreeSet::new(), attempts: vec![], pending: vec![], acked_since_err: vec![],
-        writer_errored: false, rollback_failed: false, calls: vec![], violations: vec![], counts: BTreeMap::new(), gave_up: false,
+        writer_errored: false, rollback_failed: false, registers_ahead: false, calls: vec![], violations: vec![], counts: BTreeMap::new(), gave_up: false,
     };
     // arm the fault: operation numbering starts here
     vdir.with_state(|s| {
